@@ -207,8 +207,13 @@ class Interp:
         key = (owner.qualname, name)
         if key in self.E.class_attr_cache:
             return self.E.class_attr_cache[key]
+        dflt_kw = None
+        if isinstance(expr, ast.Call) and ast.unparse(expr.func) in ("field", "dataclasses.field") and owner.is_dataclass:
+            dflt_kw = next((kw.value for kw in expr.keywords if kw.arg == "default"), None)
         if owner.is_subclass_of("Enum") or owner.is_subclass_of("enum.Enum"):
             v = EnumVal(owner, name)
+        elif dflt_kw is not None:      # dataclass field(default=X): the class attribute (and the value of an instance that never set it) is X
+            v = self.eval(dflt_kw, ClassBodyEnv(self, owner), owner.module, owner)
         else:
             env = Env()
             # earlier class attributes are visible while evaluating later ones
